@@ -75,7 +75,20 @@ func Scan(dir string) (map[string]string, error) {
 		}
 		for _, d := range f.Decls {
 			if fd, ok := d.(*ast.FuncDecl); ok {
-				out[KeyOf(filepath.ToSlash(rel), fd)] = path
+				k := KeyOf(filepath.ToSlash(rel), fd)
+				out[k] = path
+				if fd.Body != nil {
+					ast.Inspect(fd.Body, func(n ast.Node) bool {
+						if as, ok := n.(*ast.AssignStmt); ok && as.Tok == token.DEFINE && len(as.Lhs) == 1 && len(as.Rhs) == 1 {
+							if id, ok := as.Lhs[0].(*ast.Ident); ok {
+								if _, isLit := as.Rhs[0].(*ast.FuncLit); isLit && id.Name != "_" {
+									out[k+"$"+id.Name] = path
+								}
+							}
+						}
+						return true
+					})
+				}
 			}
 		}
 		return nil
@@ -91,6 +104,10 @@ func NewPrivate(scanned map[string]string, known map[string]bool) []string {
 			continue
 		}
 		name := k[strings.Index(k, "\t")+1:]
+		if strings.Contains(name, "$") {
+			out = append(out, k) // a local closure
+			continue
+		}
 		if i := strings.LastIndex(name, "."); i >= 0 {
 			name = name[i+1:]
 		}
@@ -222,7 +239,20 @@ func scanWithOverlay(dir string, overlay map[string][]byte) (map[string]string, 
 		}
 		for _, d := range f.Decls {
 			if fd, ok := d.(*ast.FuncDecl); ok {
-				out[KeyOf(filepath.ToSlash(rel), fd)] = path
+				k := KeyOf(filepath.ToSlash(rel), fd)
+				out[k] = path
+				if fd.Body != nil {
+					ast.Inspect(fd.Body, func(n ast.Node) bool {
+						if as, ok := n.(*ast.AssignStmt); ok && as.Tok == token.DEFINE && len(as.Lhs) == 1 && len(as.Rhs) == 1 {
+							if id, ok := as.Lhs[0].(*ast.Ident); ok {
+								if _, isLit := as.Rhs[0].(*ast.FuncLit); isLit && id.Name != "_" {
+									out[k+"$"+id.Name] = path
+								}
+							}
+						}
+						return true
+					})
+				}
 			}
 		}
 		return nil
@@ -248,6 +278,8 @@ type edit struct {
 }
 
 type callee struct {
+	sig      *types.Signature
+	delStmt  ast.Stmt // for a local closure: the statement that declares it
 	hasDefer bool
 	isExpr   bool // the body is a single `return <expr>`
 	key      string
@@ -270,7 +302,7 @@ func (in *inliner) off(p token.Pos) int { return in.pk.Fset.Position(p).Offset }
 // run inlines, in this package, every new private helper that calls no other new helper, at all its call sites; returns the helpers removed.
 func (in *inliner) run() []string {
 	info := in.pk.TypesInfo
-	cands := map[*types.Func]*callee{}
+	cands := map[types.Object]*callee{}
 	for _, f := range in.pk.Syntax {
 		for _, d := range f.Decls {
 			fd, ok := d.(*ast.FuncDecl)
@@ -285,20 +317,53 @@ func (in *inliner) run() []string {
 			if obj == nil {
 				continue
 			}
-			cd := &callee{key: k, decl: fd, obj: obj, file: f}
+			cd := &callee{key: k, decl: fd, obj: obj, file: f, sig: obj.Type().(*types.Signature)}
 			if len(fd.Body.List) == 1 {
-				if rs, ok := fd.Body.List[0].(*ast.ReturnStmt); ok && len(rs.Results) == 1 && obj.Type().(*types.Signature).Results().Len() == 1 {
+				if rs, ok := fd.Body.List[0].(*ast.ReturnStmt); ok && len(rs.Results) == 1 && cd.sig.Results().Len() == 1 {
 					cd.isExpr = true
 				}
 			}
 			cands[obj] = cd
 		}
 	}
+	// new local closures: `name := func(...) ... { ... }` whose key (function$name) the reference does not know
+	for _, f := range in.pk.Syntax {
+		for _, d := range f.Decls {
+			fd, ok := d.(*ast.FuncDecl)
+			if !ok || fd.Body == nil {
+				continue
+			}
+			fkey := KeyOf(in.relDir, fd)
+			ast.Inspect(fd.Body, func(n ast.Node) bool {
+				as, ok := n.(*ast.AssignStmt)
+				if !ok || as.Tok != token.DEFINE || len(as.Lhs) != 1 || len(as.Rhs) != 1 {
+					return true
+				}
+				id, ok1 := as.Lhs[0].(*ast.Ident)
+				lit, ok2 := as.Rhs[0].(*ast.FuncLit)
+				if !ok1 || !ok2 || id.Name == "_" {
+					return true
+				}
+				k := fkey + "$" + id.Name
+				if in.known[k] {
+					return true
+				}
+				v, _ := info.Defs[id].(*types.Var)
+				sig, _ := info.TypeOf(lit).(*types.Signature)
+				if v == nil || sig == nil {
+					return true
+				}
+				cd := &callee{key: k, decl: &ast.FuncDecl{Name: ast.NewIdent(id.Name), Type: lit.Type, Body: lit.Body}, file: f, sig: sig, delStmt: as}
+				cands[v] = cd
+				return true
+			})
+		}
+	}
 	if len(cands) == 0 {
 		return nil
 	}
 	// leaf-first: a candidate that calls another candidate waits for the next round
-	ready := map[*types.Func]*callee{}
+	ready := map[types.Object]*callee{}
 	for obj, c := range cands {
 		if why := in.ineligible(c); why != "" {
 			in.keptWhy[c.key] = why
@@ -307,7 +372,7 @@ func (in *inliner) run() []string {
 		callsCand := false
 		ast.Inspect(c.decl.Body, func(n ast.Node) bool {
 			if ce, ok := n.(*ast.CallExpr); ok {
-				if o := calleeObj(info, ce); o != nil && cands[o] != nil {
+				if o := calleeAny(info, ce); o != nil && cands[o] != nil && cands[o] != c {
 					callsCand = true
 				}
 			}
@@ -324,13 +389,12 @@ func (in *inliner) run() []string {
 	}
 	// collect the call sites and every other reference
 	edits := map[*ast.File][]edit{}
-	failed := map[*types.Func]string{}
-	sites := map[*types.Func]int{}
-	refs := map[*types.Func]int{}
-	for id, o := range info.Uses {
-		if f, ok := o.(*types.Func); ok && ready[f] != nil {
-			_ = id
-			refs[f]++
+	failed := map[types.Object]string{}
+	sites := map[types.Object]int{}
+	refs := map[types.Object]int{}
+	for _, o := range info.Uses {
+		if ready[o] != nil {
+			refs[o]++
 		}
 	}
 	for _, f := range in.pk.Syntax {
@@ -358,7 +422,7 @@ func (in *inliner) run() []string {
 				if !ok {
 					return true
 				}
-				o := calleeObj(info, call)
+				o := calleeAny(info, call)
 				c := ready[o]
 				if c == nil || !c.isExpr {
 					return true
@@ -383,9 +447,13 @@ func (in *inliner) run() []string {
 				if call == nil {
 					return
 				}
-				o := calleeObj(info, call)
+				o := calleeAny(info, call)
 				c := ready[o]
 				if c == nil || c.isExpr {
+					return
+				}
+				if c.delStmt != nil && st.Pos() >= c.delStmt.Pos() && st.End() <= c.delStmt.End() {
+					failed[o] = "recursive"
 					return
 				}
 				if c.hasDefer && form != "return" {
@@ -451,6 +519,9 @@ func (in *inliner) run() []string {
 		if c.decl.Doc != nil {
 			s = in.off(c.decl.Doc.Pos())
 		}
+		if c.delStmt != nil {
+			s, e = in.off(c.delStmt.Pos()), in.off(c.delStmt.End())
+		}
 		edits[c.file] = append(edits[c.file], edit{s, e, ""})
 		done = append(done, strings.Replace(c.key, "\t", ".", 1))
 		delete(in.keptWhy, c.key)
@@ -472,6 +543,19 @@ func (in *inliner) run() []string {
 	return done
 }
 
+// calleeAny is calleeObj that also resolves a call of a local variable holding a function literal (to the variable).
+func calleeAny(info *types.Info, ce *ast.CallExpr) types.Object {
+	if f := calleeObj(info, ce); f != nil {
+		return f
+	}
+	if id, ok := ast.Unparen(ce.Fun).(*ast.Ident); ok {
+		if v, ok := info.Uses[id].(*types.Var); ok && !v.IsField() {
+			return v
+		}
+	}
+	return nil
+}
+
 func calleeObj(info *types.Info, ce *ast.CallExpr) *types.Func {
 	switch f := ast.Unparen(ce.Fun).(type) {
 	case *ast.Ident:
@@ -488,7 +572,7 @@ func calleeObj(info *types.Info, ce *ast.CallExpr) *types.Func {
 
 // ineligible says why a helper cannot be inlined as statements ("" = it can).
 func (in *inliner) ineligible(c *callee) string {
-	sig := c.obj.Type().(*types.Signature)
+	sig := c.sig
 	if sig.Variadic() {
 		return "variadic"
 	}
@@ -506,7 +590,7 @@ func (in *inliner) ineligible(c *callee) string {
 			if id, ok := ast.Unparen(x.Fun).(*ast.Ident); ok && id.Name == "recover" {
 				why = "calls recover"
 			}
-			if o := calleeObj(in.pk.TypesInfo, x); o == c.obj {
+			if o := calleeObj(in.pk.TypesInfo, x); o != nil && c.obj != nil && o == c.obj {
 				why = "recursive"
 			}
 		}
@@ -571,7 +655,7 @@ func siteOf(st ast.Stmt) (*ast.CallExpr, string) {
 func (in *inliner) expand(file *ast.File, src []byte, st ast.Stmt, call *ast.CallExpr, form string, c *callee, caller *ast.FuncDecl, next ast.Stmt) (string, string) {
 	info := in.pk.TypesInfo
 	fset := in.pk.Fset
-	sig := c.obj.Type().(*types.Signature)
+	sig := c.sig
 	if call.Ellipsis.IsValid() {
 		return "", "call with ..."
 	}
@@ -874,6 +958,13 @@ func (in *inliner) bodyH(c *callee, file *ast.File, scope *types.Scope, pos toke
 			if _, o := scope.LookupParent(id.Name, pos); o != obj {
 				why = "the identifier " + id.Name + " is shadowed at the call site"
 			}
+		} else if c.delStmt != nil {
+			// a variable of the enclosing function captured by the closure
+			if v, isVar := obj.(*types.Var); isVar && !v.IsField() {
+				if _, o := scope.LookupParent(id.Name, pos); o != obj {
+					why = "the captured variable " + id.Name + " is shadowed at the call site"
+				}
+			}
 		}
 		return true
 	})
@@ -1170,7 +1261,7 @@ func fixImports(filename string, src []byte, add map[string]string, names map[st
 // stood, possibly more than once, is the same as evaluating them once before the call.
 func (in *inliner) expandExpr(file *ast.File, src []byte, call *ast.CallExpr, c *callee) (string, string) {
 	info := in.pk.TypesInfo
-	sig := c.obj.Type().(*types.Signature)
+	sig := c.sig
 	if call.Ellipsis.IsValid() || len(call.Args) != sig.Params().Len() {
 		return "", "argument list form"
 	}
